@@ -5,9 +5,13 @@ package main
 
 import (
 	"bytes"
+	"context"
 	"fmt"
 	"sort"
 	"strconv"
+	"time"
+
+	"github.com/logrange/logrange/api"
 
 	"github.com/logrange/logrange/pkg/model/field"
 	"github.com/logrange/logrange/pkg/model/tag"
@@ -26,6 +30,14 @@ type Replay struct {
 	S     []byte `json:"s,omitempty"`
 	Pairs []Pair `json:"pairs,omitempty"`
 	Text  string `json:"text,omitempty"` // printable rendering of S / Pairs (information only)
+	Evs   []E2EEvent `json:"evs,omitempty"` // e2e: the events written to one in-process server
+}
+
+// E2EEvent is one write of one event
+type E2EEvent struct {
+	Tags []byte `json:"t"`
+	WF   []byte `json:"wf"`
+	EF   []byte `json:"ef"`
 }
 
 const rule = "tag texts: exhaustive strings of length <= 3 over 9 symbols, spellings (quoted/raw/back-quoted values, blanks, braces, order) of random maps over an alphabet rich in quote, back-quote, backslash, comma, equals, braces, blank, NUL and bytes >= 0x80, mutated spellings and random strings; tag maps and field lists from the same alphabet printed and re-parsed; a case is non-trivial iff the text/map/list has at least one pair and at least one byte of the special alphabet, or (for the component functions) the input is non-empty"
@@ -220,6 +232,13 @@ func classifyTags(m map[string]string) string {
 			return "tagmap-name-unsafe"
 		}
 	}
+	// an unbalanced double quote in any raw-printed value breaks the split of the whole line
+	for _, k := range keys {
+		v := []byte(m[k])
+		if !tagNeedsQuote(v) && v[0] != '"' && !scanBalanced(v) {
+			return "tagline-value-unbalanced-dquote"
+		}
+	}
 	for _, k := range keys {
 		v := []byte(m[k])
 		if tagNeedsQuote(v) {
@@ -254,6 +273,12 @@ func classifyFields(items [][]byte) string {
 			return "fieldkv-name-separator-or-unbalanced-dquote"
 		case edgeBlank(k):
 			return "fieldkv-name-edge-blank"
+		}
+	}
+	for i := 1; i < len(items); i += 2 {
+		v := items[i]
+		if !fldNeedsQuote(v) && len(v) > 0 && v[0] != '"' && !scanBalanced(v) {
+			return "fieldkv-value-unbalanced-dquote"
 		}
 	}
 	for i := 1; i < len(items); i += 2 {
@@ -581,6 +606,183 @@ func mkCase(rp Replay) (*Case, error) {
 	return cs, nil
 }
 
+// mkE2E writes every event through the RPC client of an in-process server and reads everything back: the Tags and
+// Fields texts of the results are what C08 is about. One case per event. Texts are kept free of the inputs that make
+// the server store a malformed field list (that would panic the query goroutine, see fieldkv-unquoted-item-over-255).
+func mkE2E(rp Replay) ([]*Case, error) {
+	srv, err := StartServer(ServerOpts{})
+	if err != nil {
+		return nil, err
+	}
+	defer srv.Stop()
+	ctx := context.Background()
+	acked := make([]bool, len(rp.Evs))
+	n := 0
+	for i, e := range rp.Evs {
+		var res api.WriteResult
+		ev := []*api.LogEvent{{Timestamp: int64(1000 + i), Message: fmt.Sprintf("m%04d", i), Fields: string(e.EF)}}
+		if err := srv.Client.Write(ctx, string(e.Tags), string(e.WF), ev, &res); err != nil {
+			return nil, fmt.Errorf("rpc write: %v", err)
+		}
+		acked[i] = res.Err == nil
+		if acked[i] {
+			n++
+		}
+	}
+	got := map[string]*api.LogEvent{}
+	WaitFor(30*time.Second, func() bool {
+		var qres api.QueryResult
+		if err := srv.Client.Query(ctx, &api.QueryRequest{Query: "SELECT LIMIT 10000", Limit: 10000}, &qres); err != nil || qres.Err != nil {
+			return false
+		}
+		for _, e := range qres.Events {
+			got[e.Message] = e
+		}
+		return len(got) >= n
+	})
+	var out []*Case
+	for i, e := range rp.Evs {
+		cs := &Case{Stream: "e2e", Replay: Replay{Kind: "e2e", Evs: []E2EEvent{e}}, NonTrivial: acked[i]}
+		obs := GNone
+		var vals [][]byte
+		if m, err := kvstring.ToMap(string(e.Tags)); err == nil {
+			for _, p := range sortedPairs(m) {
+				vals = append(vals, p.V)
+			}
+		}
+		for _, ft := range [][]byte{e.WF, e.EF} {
+			if f, err := field.NewFieldsFromKVString(string(ft)); err == nil {
+				items, _ := decodeFields([]byte(f))
+				vals = append(vals, items...)
+			}
+		}
+		ut := unquoteTableMany(string(e.Tags), string(e.WF), string(e.EF))
+		if ev := got[fmt.Sprintf("m%04d", i)]; ev != nil {
+			obs = GSome(GPair(GStr(ev.Tags), GStr(ev.Fields)))
+			// oracle: what comes back parses, with the server's own parsers, to what went in
+			if !acked[i] {
+				cs.Oracle = &Violation{Class: "e2e-refused-write-readable", Detail: show(e.Tags)}
+			} else {
+				mi, _ := kvstring.ToMap(string(e.Tags))
+				mo, err := kvstring.ToMap(ev.Tags)
+				f1, _ := field.NewFieldsFromKVString(string(e.WF))
+				f2 := field.Parse(string(e.EF))
+				fo, ferr := field.NewFieldsFromKVString(ev.Fields)
+				switch {
+				case err != nil || !mapEq(mi, mo):
+					cs.Oracle = &Violation{Class: "e2e-tags-text", Detail: fmt.Sprintf("written %s, returned Tags %s", show(e.Tags), show([]byte(ev.Tags)))}
+				case ferr != nil || string(fo) != string(f1)+string(f2):
+					cs.Oracle = &Violation{Class: "e2e-fields-text", Detail: fmt.Sprintf("written %s + %s, returned Fields %s", show(e.WF), show(e.EF), show([]byte(ev.Fields)))}
+				}
+			}
+		} else if acked[i] {
+			cs.Oracle = &Violation{Class: "e2e-acknowledged-not-readable", Detail: show(e.Tags)}
+		}
+		cs.Coq = GApp("KE2E", GBytes(e.Tags), GBytes(e.WF), GBytes(e.EF), ut, quoteTable(vals), GBool(acked[i]), obs)
+		out = append(out, cs)
+	}
+	return out, nil
+}
+
+func unquoteTableMany(texts ...string) string {
+	var it []string
+	seen := map[string]bool{}
+	for _, s := range texts {
+		fine, err := kvstring.RemoveCurlyBraces(s)
+		if err != nil || len(fine) == 0 {
+			continue
+		}
+		res, err := kvstring.SplitString(fine, '=', ',', nil)
+		if err != nil {
+			continue
+		}
+		for _, p := range res {
+			v := kvstring.TrimSpaces(p)
+			if len(v) > 0 && (v[0] == '"' || v[0] == '`') && !seen[v] {
+				seen[v] = true
+				u, e := strconv.Unquote(v)
+				it = append(it, GPair(GStr(v), gOptBytes(e == nil, []byte(u))))
+			}
+		}
+	}
+	return GList(it)
+}
+
+var safeLetters = []byte("abcxyz019AZ._- :/")
+
+func genSafe(r *Rng, maxLen int) []byte {
+	n := r.Range(1, maxLen)
+	b := make([]byte, n)
+	for i := range b {
+		b[i] = safeLetters[r.Intn(len(safeLetters))]
+	}
+	if b[0] == ' ' {
+		b[0] = 'q'
+	}
+	if b[n-1] == ' ' {
+		b[n-1] = 'q'
+	}
+	return b
+}
+
+// genE2E: texts whose values are printable ASCII, some needing quotes (',' '='), spelled with blanks/braces/quotes
+func genE2E(r *Rng, n int) []E2EEvent {
+	mk := func(maxPairs int, allowEmpty bool) []byte {
+		np := r.Range(1, maxPairs)
+		if allowEmpty && r.Chance(1, 5) {
+			return nil
+		}
+		var ps []Pair
+		seen := map[string]bool{}
+		for i := 0; i < np; i++ {
+			k := []byte(r.PickStr("name", "ip", "a", "k.x", "zone", "B"))
+			if seen[string(k)] {
+				continue
+			}
+			seen[string(k)] = true
+			v := genSafe(r, 6)
+			if r.Chance(1, 4) {
+				v = append(v, r.PickStr(",", "=", ",x=", "\"y\",")...)
+				v = append(v, 'z')
+			}
+			ps = append(ps, Pair{K: k, V: v})
+		}
+		var sb bytes.Buffer
+		for i, p := range ps {
+			if i > 0 {
+				sb.WriteByte(',')
+			}
+			sb.WriteString(blanks(r))
+			sb.Write(p.K)
+			sb.WriteString("=")
+			plainV := bytes.IndexAny(p.V, ",=\" ") < 0
+			if plainV && r.Chance(1, 2) {
+				sb.Write(p.V)
+			} else {
+				sb.WriteString(strconv.Quote(string(p.V)))
+			}
+			sb.WriteString(blanks(r))
+		}
+		s := sb.Bytes()
+		if r.Chance(1, 4) {
+			s = append(append([]byte("{"), s...), '}')
+		}
+		return s
+	}
+	var evs []E2EEvent
+	for i := 0; i < n; i++ {
+		e := E2EEvent{Tags: mk(3, false), WF: mk(2, false), EF: mk(2, true)}
+		if r.Chance(1, 12) {
+			e.Tags = mutate(r, e.Tags) // mostly refused
+		}
+		if r.Chance(1, 15) {
+			e.EF = []byte("broken") // field.Parse drops the error
+		}
+		evs = append(evs, e)
+	}
+	return evs
+}
+
 func showItems(items [][]byte) string {
 	s := "["
 	for i, it := range items {
@@ -702,6 +904,16 @@ func main() {
 			if err := FromJSON(c.Replay, &rp); err != nil {
 				return err
 			}
+			if rp.Kind == "e2e" {
+				css, err := mkE2E(rp)
+				if err != nil {
+					return err
+				}
+				for _, cs := range css {
+					c.Add(*cs)
+				}
+				return c.Finish(rule)
+			}
 			cs, err := mkCase(rp)
 			if err != nil {
 				return err
@@ -811,6 +1023,22 @@ func main() {
 				return errs[i]
 			}
 			c.Add(*res[i])
+		}
+		// end to end: one in-process server, events written and read back through RPC
+		// (a query without FROM merges at most 50 partitions: at most 30 events, hence partitions, per server)
+		evs := genE2E(r, c.N(40))
+		for lo := 0; lo < len(evs); lo += 30 {
+			hi := lo + 30
+			if hi > len(evs) {
+				hi = len(evs)
+			}
+			css, err := mkE2E(Replay{Kind: "e2e", Evs: evs[lo:hi]})
+			if err != nil {
+				return err
+			}
+			for _, cs := range css {
+				c.Add(*cs)
+			}
 		}
 		return c.Finish(rule)
 	})
